@@ -3,7 +3,7 @@
   Property theorems only (model: Zed/Model/LakePatch.lean, LakeOps.lean — `Patch`, `Diff`,
   `Revert` exactly as coded; lemmas: Zed/Proofs/Lake*.lean).
 -/
-import Zed.Proofs.LakeSnap
+import Zed.Proofs.LakeRevert
 namespace Zed.Props.C15
 open Zed.Lake
 
@@ -16,6 +16,127 @@ variable {K V : Type} [DecidableEq V]
 theorem merge_conflict_untouched (cfg : Cfg K V) (s : State K V) (op : Op V) (e : Err)
     (h : apply cfg s op = .error e) : step cfg s op = s := by
   unfold step; rw [h]
+
+/-! ### merge -/
+
+/-- guard of `merge_exact_partial`: every object the child deleted since the common ancestor
+    is still in the parent tip (decidable) -/
+def NoCommonDeletes (pc : Patch K) (Sp : Snap K) : Bool := pc.delObjs.all Sp.hasObj
+
+omit [DecidableEq V] in
+/-- the commit object a successful `merge` appends is exactly `Diff(parentPatch, childPatch)`
+    of the two `PatchOfPath`s from the common ancestor, committed on the parent's tip -/
+theorem merge_commit (s s' : State K V) (child parent : Nat) (h : merge s child parent = .ok s') :
+    ∃ ctip ptip acts, s.tip child = some ctip ∧ s.tip parent = some ptip ∧
+      mergeActions s.commits ctip ptip = .ok acts ∧ s' = s.commit parent ptip acts := by
+  unfold merge at h
+  split at h
+  · rename_i ctip ptip hc hp
+    split at h
+    · cases h
+    · rename_i acts ha
+      cases h
+      exact ⟨ctip, ptip, acts, hc, hp, ha, rfl⟩
+  · cases h
+
+/-- **merge_exact_partial** (guard `NoCommonDeletes`).
+    Full statement `merge_exact`: *a successful merge makes the parent contain its previous
+    objects plus everything the child added since the common ancestor minus everything the
+    child deleted since then, and the parent stays readable* — FALSE of the current code without
+    the guard (`not_merge_result_replayable`).
+
+    Setting: `B` is the snapshot of the common ancestor; `Ap` / `Ac` are the actions of the
+    commits on the parent / child path since then, so that `Sp = play B Ap`, `Sc = play B Ac`
+    are the two tip snapshots (`Store.Snapshot` is this fold) and `pp`, `pc` the two
+    `PatchOfPath`s; `d = Diff(pp, pc)` is what `buildMergeObject` commits.  Then the commit
+    object replays on the parent tip and the new parent snapshot holds exactly
+    `(Sp \ childDeleted) ∪ childAdded`, with `childAdded = Sc \ B`, `childDeleted = B \ Sc`.
+    Vectors of the parent are untouched.  Holds for every base, every pair of action
+    sequences, every outcome of earlier merges (objects the parent already took over). -/
+theorem merge_exact_partial (B Sp Sc : Snap K) (Ap Ac : List (Action K)) (pp pc d : Patch K)
+    (hpp : (Patch.new (.snap B)).play Ap = .ok pp) (hpc : (Patch.new (.snap B)).play Ac = .ok pc)
+    (hSp : play B Ap = .ok Sp) (hSc : play B Ac = .ok Sc)
+    (hd : diff pp pc = .ok d) (guard : NoCommonDeletes pc Sp = true) :
+    ∃ S', play Sp d.commitActions = .ok S' ∧ S'.vecs = Sp.vecs ∧
+      ∀ id, S'.hasObj id =
+        ((Sp.hasObj id && !(B.hasObj id && !Sc.hasObj id)) || (Sc.hasObj id && !B.hasObj id)) := by
+  obtain ⟨S', h1, h2, h3⟩ := merge_play B Sp Sc Ap Ac pp pc d hpp hpc hSp hSc hd guard
+  have rc := sim B Ac _ pc B Sc (Rel.init B) hpc hSc
+  refine ⟨S', h1, h2, ?_⟩
+  intro id
+  rw [h3 id, rc.mem id]
+  cases hB : B.hasObj id <;> cases hD : pc.diff.hasObj id <;> cases hC : pc.delObjs.contains id <;> simp
+  all_goals first
+    | (have h := rc.diffOut id hD; rw [hB] at h; exact absurd h (by decide))
+    | (have h := rc.delIn id hC; rw [hB] at h; exact absurd h (by decide))
+
+/-- **readable_after** (merge): under the guard the parent's new tip replays — this is the
+    first component of `merge_exact_partial`; without the guard it does not
+    (`not_merge_result_replayable`). -/
+theorem readable_after_merge (B Sp Sc : Snap K) (Ap Ac : List (Action K)) (pp pc d : Patch K)
+    (hpp : (Patch.new (.snap B)).play Ap = .ok pp) (hpc : (Patch.new (.snap B)).play Ac = .ok pc)
+    (hSp : play B Ap = .ok Sp) (hSc : play B Ac = .ok Sc)
+    (hd : diff pp pc = .ok d) (guard : NoCommonDeletes pc Sp = true) :
+    (play Sp d.commitActions).toBool = true := by
+  obtain ⟨S', h1, _, _⟩ := merge_exact_partial B Sp Sc Ap Ac pp pc d hpp hpc hSp hSc hd guard
+  rw [h1]; rfl
+
+/-! ### revert -/
+
+/-- **revert_exact.**  Let `B` be the snapshot of commit `c`'s parent, `A` the actions of `c`
+    (so `pc = PatchOfCommit(c)`, `Sc = play B A` = `c`'s snapshot) and `T` the snapshot of the
+    branch tip, whatever happened since.  If `Patch.Revert` returns a commit object, it replays
+    on the tip (the branch stays readable) and the new snapshot is
+    `(T \ added(c)) ∪ deleted(c)`: what `c` added is removed if still present, what it deleted
+    is restored if still absent, everything else is untouched. -/
+theorem revert_exact (B Sc T : Snap K) (A : List (Action K)) (pc : Patch K) (acts : List (Action K))
+    (hpc : (Patch.new (.snap B)).play A = .ok pc) (hSc : play B A = .ok Sc)
+    (hr : pc.revert T = .ok acts) :
+    ∃ T', play T acts = .ok T' ∧ T'.vecs = T.vecs ∧
+      ∀ id, T'.hasObj id =
+        ((T.hasObj id && !(Sc.hasObj id && !B.hasObj id)) || (B.hasObj id && !Sc.hasObj id)) := by
+  obtain ⟨T', h1, h2, h3⟩ := revert_play B Sc T A pc acts hpc hSc hr
+  have rc := sim B A _ pc B Sc (Rel.init B) hpc hSc
+  refine ⟨T', h1, h2, ?_⟩
+  intro id
+  rw [h3 id, rc.mem id]
+  cases hB : B.hasObj id <;> cases hD : pc.diff.hasObj id <;> cases hC : pc.delObjs.contains id <;> simp
+  all_goals first
+    | (have h := rc.diffOut id hD; rw [hB] at h; exact absurd h (by decide))
+    | (have h := rc.delIn id hC; rw [hB] at h; exact absurd h (by decide))
+
+/-- **revert_revert_id.**  Reverting a commit at the tip it created restores the previous
+    object set exactly; in particular reverting a revert restores the contents the branch had
+    before the revert.  (`T`: snapshot before the commit, `acts`: its actions, `T'`: the tip.) -/
+theorem revert_revert_id (T T' : Snap K) (acts acts2 : List (Action K)) (pr : Patch K)
+    (hpr : (Patch.new (.snap T)).play acts = .ok pr) (hT' : play T acts = .ok T')
+    (h2 : pr.revert T' = .ok acts2) :
+    ∃ T'', play T' acts2 = .ok T'' ∧ ∀ id, T''.hasObj id = T.hasObj id := by
+  obtain ⟨T'', h1, _, h3⟩ := revert_exact T T' T' acts pr acts2 hpr hT' h2
+  refine ⟨T'', h1, ?_⟩
+  intro id
+  rw [h3 id]
+  cases T'.hasObj id <;> cases T.hasObj id <;> rfl
+
+/-- **readable_after** (revert): whenever `Revert` produces a commit object it replays on the tip. -/
+theorem readable_after_revert (B Sc T : Snap K) (A : List (Action K)) (pc : Patch K) (acts : List (Action K))
+    (hpc : (Patch.new (.snap B)).play A = .ok pc) (hSc : play B A = .ok Sc)
+    (hr : pc.revert T = .ok acts) : (play T acts).toBool = true := by
+  obtain ⟨T', h1, _, _⟩ := revert_exact B Sc T A pc acts hpc hSc hr
+  rw [h1]; rfl
+
+/-! ### non-vacuity of the hypotheses (a concrete base, two divergent sides) -/
+
+private def exB : Snap Nat := { objs := [{ id := 1, min := 1, max := 1, count := 1 }, { id := 2, min := 2, max := 2, count := 1 }] }
+private def exAc : List (Action Nat) := [.del 1, .add { id := 3, min := 3, max := 3, count := 1 }]
+private def exAp : List (Action Nat) := [.add { id := 4, min := 4, max := 4, count := 1 }]
+
+example : ∃ pp pc d Sp Sc, (Patch.new (.snap exB)).play exAp = .ok pp ∧ (Patch.new (.snap exB)).play exAc = .ok pc ∧
+    play exB exAp = .ok Sp ∧ play exB exAc = .ok Sc ∧ diff pp pc = .ok d ∧ NoCommonDeletes pc Sp = true :=
+  ⟨_, _, _, _, _, rfl, rfl, rfl, rfl, rfl, rfl⟩
+
+example : ∃ pc Sc acts, (Patch.new (.snap exB)).play exAc = .ok pc ∧ play exB exAc = .ok Sc ∧
+    pc.revert Sc = .ok acts := ⟨_, _, _, rfl, rfl, rfl⟩
 
 /-! ### the 4-step witness: both sides delete the same object -/
 
